@@ -100,33 +100,33 @@ def zipNexts (l1 l2 : Chain) : Nat → ZipIter → Mem → List (Stat × Option 
     let r := zipNext l1 l2 z m; let rs := zipNexts l1 l2 k r.2.2.1 r.2.2.2; ((r.1, r.2.1) :: rs.1, rs.2.1, rs.2.2)
 
 theorem iterNexts_refines (xs : List Nat) : ∀ (k : Nat) (c : LSeq.Cursor) (it : Iter) (m : Mem), ItRel xs c it →
-    (iterNexts (ofList xs) k it m).1 = (LSeqT.nexts xs k c).1 ∧
-    ItRel xs (LSeqT.nexts xs k c).2 (iterNexts (ofList xs) k it m).2.1 ∧ (iterNexts (ofList xs) k it m).2.2 = m
+    (iterNexts (ofList t xs) k it m).1 = (LSeqT.nexts xs k c).1 ∧
+    ItRel xs (LSeqT.nexts xs k c).2 (iterNexts (ofList t xs) k it m).2.1 ∧ (iterNexts (ofList t xs) k it m).2.2 = m
   | 0, c, it, m, h => ⟨rfl, h, rfl⟩
   | k + 1, c, it, m, h => by
-    obtain ⟨it', e, h'⟩ := iterNext_ofList xs c it m h
-    have ih := iterNexts_refines xs k _ it' m h'
+    obtain ⟨it', e, h'⟩ := iterNext_ofList (t := t) xs c it m h
+    have ih := iterNexts_refines (t := t) xs k _ it' m h'
     simp only [iterNexts, LSeqT.nexts, e]
     exact ⟨by rw [ih.1], ih.2.1, ih.2.2⟩
 
 theorem diterNexts_refines (xs : List Nat) : ∀ (k : Nat) (c : LSeq.Cursor) (it : Iter) (m : Mem), DitRel xs c it →
-    (diterNexts (ofList xs) k it m).1 = (LSeqT.dnexts xs k c).1 ∧
-    DitRel xs (LSeqT.dnexts xs k c).2 (diterNexts (ofList xs) k it m).2.1 ∧ (diterNexts (ofList xs) k it m).2.2 = m
+    (diterNexts (ofList t xs) k it m).1 = (LSeqT.dnexts xs k c).1 ∧
+    DitRel xs (LSeqT.dnexts xs k c).2 (diterNexts (ofList t xs) k it m).2.1 ∧ (diterNexts (ofList t xs) k it m).2.2 = m
   | 0, c, it, m, h => ⟨rfl, h, rfl⟩
   | k + 1, c, it, m, h => by
-    obtain ⟨it', e, h'⟩ := diterNext_ofList xs c it m h
-    have ih := diterNexts_refines xs k _ it' m h'
+    obtain ⟨it', e, h'⟩ := diterNext_ofList (t := t) xs c it m h
+    have ih := diterNexts_refines (t := t) xs k _ it' m h'
     simp only [diterNexts, LSeqT.dnexts, e]
     exact ⟨by rw [ih.1], ih.2.1, ih.2.2⟩
 
 theorem zipNexts_refines (xs ys : List Nat) : ∀ (k : Nat) (c : LSeq.Cursor) (z : ZipIter) (m : Mem), ZipRel xs ys c z →
-    (zipNexts (ofList xs) (ofList ys) k z m).1 = (LSeqT.znexts xs ys k c).1 ∧
-    ZipRel xs ys (LSeqT.znexts xs ys k c).2 (zipNexts (ofList xs) (ofList ys) k z m).2.1 ∧
-    (zipNexts (ofList xs) (ofList ys) k z m).2.2 = m
+    (zipNexts (ofList t xs) (ofList t2 ys) k z m).1 = (LSeqT.znexts xs ys k c).1 ∧
+    ZipRel xs ys (LSeqT.znexts xs ys k c).2 (zipNexts (ofList t xs) (ofList t2 ys) k z m).2.1 ∧
+    (zipNexts (ofList t xs) (ofList t2 ys) k z m).2.2 = m
   | 0, c, z, m, h => ⟨rfl, h, rfl⟩
   | k + 1, c, z, m, h => by
-    obtain ⟨z', e, h'⟩ := zipNext_ofList xs ys c z m h
-    have ih := zipNexts_refines xs ys k _ z' m h'
+    obtain ⟨z', e, h'⟩ := zipNext_ofList (t := t) (t2 := t2) xs ys c z m h
+    have ih := zipNexts_refines (t := t) (t2 := t2) xs ys k _ z' m h'
     simp only [zipNexts, LSeqT.znexts, e]
     exact ⟨by rw [ih.1], ih.2.1, ih.2.2⟩
 end DList
@@ -142,23 +142,23 @@ def zipNexts (l1 l2 : Chain) : Nat → ZipIter → Mem → List (Stat × Option 
     let r := zipNext l1 l2 z m; let rs := zipNexts l1 l2 k r.2.2.1 r.2.2.2; ((r.1, r.2.1) :: rs.1, rs.2.1, rs.2.2)
 
 theorem iterNexts_refines (xs : List Nat) : ∀ (k : Nat) (c : LSeq.Cursor) (it : Iter) (m : Mem), ItRel xs c it →
-    (iterNexts (ofList xs) k it m).1 = (LSeqT.nexts xs k c).1 ∧
-    ItRel xs (LSeqT.nexts xs k c).2 (iterNexts (ofList xs) k it m).2.1 ∧ (iterNexts (ofList xs) k it m).2.2 = m
+    (iterNexts (ofList t xs) k it m).1 = (LSeqT.nexts xs k c).1 ∧
+    ItRel xs (LSeqT.nexts xs k c).2 (iterNexts (ofList t xs) k it m).2.1 ∧ (iterNexts (ofList t xs) k it m).2.2 = m
   | 0, c, it, m, h => ⟨rfl, h, rfl⟩
   | k + 1, c, it, m, h => by
-    obtain ⟨it', e, h'⟩ := iterNext_ofList xs c it m h
-    have ih := iterNexts_refines xs k _ it' m h'
+    obtain ⟨it', e, h'⟩ := iterNext_ofList (t := t) xs c it m h
+    have ih := iterNexts_refines (t := t) xs k _ it' m h'
     simp only [iterNexts, LSeqT.nexts, e]
     exact ⟨by rw [ih.1], ih.2.1, ih.2.2⟩
 
 theorem zipNexts_refines (xs ys : List Nat) : ∀ (k : Nat) (c : LSeq.Cursor) (z : ZipIter) (m : Mem), ZipRel xs ys c z →
-    (zipNexts (ofList xs) (ofList ys) k z m).1 = (LSeqT.znexts xs ys k c).1 ∧
-    ZipRel xs ys (LSeqT.znexts xs ys k c).2 (zipNexts (ofList xs) (ofList ys) k z m).2.1 ∧
-    (zipNexts (ofList xs) (ofList ys) k z m).2.2 = m
+    (zipNexts (ofList t xs) (ofList t2 ys) k z m).1 = (LSeqT.znexts xs ys k c).1 ∧
+    ZipRel xs ys (LSeqT.znexts xs ys k c).2 (zipNexts (ofList t xs) (ofList t2 ys) k z m).2.1 ∧
+    (zipNexts (ofList t xs) (ofList t2 ys) k z m).2.2 = m
   | 0, c, z, m, h => ⟨rfl, h, rfl⟩
   | k + 1, c, z, m, h => by
-    obtain ⟨z', e, h'⟩ := zipNext_ofList xs ys c z m h
-    have ih := zipNexts_refines xs ys k _ z' m h'
+    obtain ⟨z', e, h'⟩ := zipNext_ofList (t := t) (t2 := t2) xs ys c z m h
+    have ih := zipNexts_refines (t := t) (t2 := t2) xs ys k _ z' m h'
     simp only [zipNexts, LSeqT.znexts, e]
     exact ⟨by rw [ih.1], ih.2.1, ih.2.2⟩
 end SList
